@@ -1,14 +1,17 @@
 #!/bin/bash
-# seedmatrix.sh [tier] : every kept seeded change against the check of its property; writes seeded/RESULTS.tsv
-tier=${1:-quick}
+# seedmatrix.sh [tier] [name...] : every kept seeded change (or only the named ones) against the check of its
+# property; writes / updates seeded/RESULTS.tsv
+tier=${1:-quick}; shift
 cd /verif
-: > seeded/RESULTS.tsv
-for sd in seeded/*/; do
-  name=$(basename $sd); id=${name%%-*}
+if [ $# -eq 0 ]; then : > seeded/RESULTS.tsv; set -- $(ls seeded | grep -E '^C[0-9]+-'); fi
+for name in "$@"; do
+  sd=seeded/$name/; id=${name%%-*}
   alt=$(python3 -c "import json,sys;print(json.load(open(sys.argv[1])).get('check',''))" $sd/meta.json); [ -n "$alt" ] && id=$alt   # a change caught by the check of another property
   out=$(./scripts/seedrun.sh $sd $id $tier 2>&1)
   rc=$(echo "$out" | grep -o 'exit=[0-9]*' | tail -1)
   sig=$(echo "$out" | grep -m1 'signature:' | sed 's/^ *signature: //' | cut -c1-150)
   note=$(echo "$out" | grep -m1 -E 'does not apply|uncommitted|INFRA' | cut -c1-100)
+  grep -v "^$name	" seeded/RESULTS.tsv > seeded/RESULTS.tsv.new; mv seeded/RESULTS.tsv.new seeded/RESULTS.tsv
   printf "%s\t%s\t%s\t%s\t%s\n" "$name" "$id" "$rc" "$sig" "$note" | tee -a seeded/RESULTS.tsv
 done
+sort -V -o seeded/RESULTS.tsv seeded/RESULTS.tsv
